@@ -55,7 +55,10 @@ HeaderOps == {"AddHeader", "AddHeaderWithPageNumber", "AddFormattedHeader"}
 FooterOps == {"AddFooter", "AddFooterWithPageNumber", "AddFormattedFooter"}
 HfOps     == HeaderOps \cup FooterOps
 CondOps   == {"AddListItem", "AddFootnote", "AddEndnote", "SetFootnoteConfig"}   \* create their relationship once
-PlainOps  == {"SetProps", "AddStyle", "AddParagraph", "AddTable", "Placeholder", "Save", "ToBytes", "Reopen"}
+\* RemoveFootnote / RemoveEndnote take notes away (one, or all of them): the notes part, its relationship and every
+\* other relationship stay
+RemoveOps == {"RemoveFootnote", "RemoveEndnote"}
+PlainOps  == {"SetProps", "AddStyle", "AddParagraph", "AddTable", "Placeholder", "Save", "ToBytes", "Reopen"} \cup RemoveOps
 StartOps  == {"New", "OpenForeign"}
 AllOps    == {"AddImage", "Render"} \cup HfOps \cup CondOps \cup PlainOps \cup StartOps
 
